@@ -289,3 +289,30 @@ package enginetest
 //@   captures s != nil
 //@   onacquire assume $pendingJobs[s] > 0
 //@   onacquire $pendingJobs := upd($pendingJobs, s, $pendingJobs[s] - 1)
+//@ func okMaxIndexCounting
+//@   requires len(a) > 0
+//@   ensures [C91.x] 0 <= result && result < len(a) && (forall j, x in a :: x <= a[result])
+//@   loop 1 invariant 0 <= best && best < len(a) && 0 <= i && i <= len(a) && (forall j, x in a :: j <= $i ==> x <= a[best])
+//@ func badMaxIndexCountingShort_ensures
+//@   requires len(a) > 0
+//@   ensures [C91.x] 0 <= result && result < len(a) && (forall j, x in a :: x <= a[result])
+//@   loop 1 invariant 0 <= best && best < len(a) && 0 <= i && i <= len(a) && (forall j, x in a :: j <= $i ==> x <= a[best])
+//@ func badCountingStalls_decreases
+//@   loop 1 invariant 0 <= i
+//@ func okCountingDown
+//@ protect gauge.{level,limit} guarded_by gauge.mu
+//@ racestrict gauge
+//@ inv gauge.mu K1 [C92] := this.level <= this.limit
+//@ globalinv startTimer != nil
+//@ dyn global:startTimer(f)
+//@   modifies nothing
+//@ func (g *gauge) arm$1
+//@   captures g != nil
+//@ func badNewGaugeEarly_publish
+//@   requires limit < 1000
+//@ func badNewGaugeLate_guard
+//@   requires limit < 1000
+//@ func okNewGaugeLocked
+//@   requires limit < 1000
+//@ func okNewGaugeComplete
+//@   requires limit < 1000
